@@ -101,7 +101,8 @@ def build_dataset(case: dict):
         for g, sol in items:
             k = tuple(sol[0])
             coll["start_coord"][k] = coll["start_coord"].get(k, 0) + 1
-    cfg = MazeDatasetConfig(name=case.get("name", "hand"), grid_n=n, n_mazes=len(mazes), seed=case.get("seed", 42))
+    # the recorded maze count may legitimately be stale (subsets / merges built from an existing config)
+    cfg = MazeDatasetConfig(name=case.get("name", "hand"), grid_n=n, n_mazes=max(0, len(mazes) + case.get("n_mazes_off", 0)), seed=case.get("seed", 42))
     return MazeDataset(cfg, mazes, generation_metadata_collected=coll)
 
 
@@ -181,6 +182,8 @@ def check(case: dict):
         labels.append("len>255")
     if n == 0:
         labels.append("empty")
+    if case.get("n_mazes_off"):
+        labels.append("stale-n_mazes")
     return {"nt": bool(nt), "labels": labels}
 
 
@@ -257,6 +260,9 @@ def _hand_dataset(draw, n_hi, long_ok=True, min_items=1):
             it = draw(G.solved_case(lo=n, hi=n, square=True))
             items.append({"g": it["g"], "sol": it["sol"]})
     case = {"src": "hand", "n": n, "items": items, "meta": draw(st.sampled_from(["none", "collected-only", "per-maze", "both"]))}
+    off = draw(st.sampled_from([0, 0, 0, 1, 3, -1]))
+    if off:
+        case["n_mazes_off"] = off
     if long_ok and draw(st.integers(0, 7)) == 0:
         big = draw(st.sampled_from([12, 16, 17]))
         case["n"] = big
